@@ -27,7 +27,7 @@ ASSUMPTIONS = [
     "on SG_IO a non-GOOD, non-CHECK-CONDITION status is only required to raise *some* exception (the binding does not tell the library the byte)",
     "sense payloads in this check are current fixed (70h) and descriptor (72h) format; the other formats are C08's",
 ]
-REQUIRED_PROBES = ["status", "cc_raised_ok", "named_status_ok"]
+REQUIRED_PROBES = ["status", "cc_raised_ok", "named_status_ok", "command_object_reused"]
 
 KINDS = [F.BLOCK, F.BLOCK, F.CHANGER, F.MMC, F.ANY]
 TRANSPORTS = ["sgio", "iscsi"]
@@ -75,10 +75,15 @@ def gen_op(rng, cfg, p_fault):
     if r < 0.3:
         op.update(via="direct", m=rng.choice(["testunitready", "inquiry", "reportluns"]), raw=rng.random() < 0.5)
         op.update(args=[], kw={})
+        if rng.random() < 0.35:
+            op["reuse"] = True      # execute the command object of the previous direct op on this transport again (polling / retry loop)
     else:
         m = rng.choice(F.methods_for(kind))
         op.update(via="facade", **F.gen_call(rng, m, cfg))
     op["fault"] = gen_fault(rng) if rng.random() < p_fault else None
+    if op["fault"] and rng.random() < 0.15:
+        # a second fault for the case that the library issues another command inside this call (e.g. a retry)
+        op["fault2"] = gen_fault(rng) if rng.random() < 0.7 else dict(op["fault"])
     return op
 
 
@@ -166,7 +171,9 @@ def judge(dev, op, kind, val, deliveries, cmd, V, where):
     if not deliveries:
         WORLD.probe("no_delivery")
         return
-    d = deliveries[0]
+    d = deliveries[-1]      # a call that issued several commands is judged on the last completion
+    if len(deliveries) > 1:
+        WORLD.probe("several_commands_in_one_call")
     dev_cls = type(dev)
     raw = bool(op.get("raw")) or op["m"].startswith("atapassthrough")
     if d.get("oserror") is not None:
@@ -260,6 +267,7 @@ def execute(prog):
             WORLD.armed.clear()
             scsis[t] = SCSI(devs[t], blocksize=cfg["bs"])
     summary = []
+    last_direct = {}
     for i, op in enumerate(prog["ops"]):
         t = op["transport"]
         dev, scsi = devs[t], scsis[t]
@@ -267,10 +275,18 @@ def execute(prog):
         WORLD.armed.clear()
         if op.get("fault"):
             WORLD.arm(op["fault"])
+        if op.get("fault2"):
+            WORLD.arm(op["fault2"])
         mark = len(WORLD.deliveries)
         cmd = None
         if op["via"] == "direct":
-            cmd = _build_direct(scsi, dev, op)
+            prev = last_direct.get(t)
+            if op.get("reuse") and prev is not None and prev[0] == op["m"]:
+                cmd = prev[1]
+                WORLD.probe("command_object_reused")
+            else:
+                cmd = _build_direct(scsi, dev, op)
+            last_direct[t] = (op["m"], cmd)
             kind, val = worlds.outcome_of(lambda: dev.execute(cmd, en_raw_sense=op["raw"]) if op["raw"] else dev.execute(cmd))
         else:
             args = F.real_args(op["args"])
